@@ -58,7 +58,19 @@ func attemptFuncs(c *Ctx) []*ssa.Function {
 				}
 			}
 		})
-		if len(impl.Blocks) == 1 && len(calls) == 1 {
+		// unwrap one-call wrappers (closure → method, bound-method wrapper → method → worker)
+		for depth := 0; depth < 4 && len(target.Blocks) == 1; depth++ {
+			calls = calls[:0]
+			eachInstr(target, func(in ssa.Instruction) {
+				if cc := getCall(in); cc != nil {
+					if sc := cc.StaticCallee(); sc != nil && c.inRepo(sc) {
+						calls = append(calls, sc)
+					}
+				}
+			})
+			if len(calls) != 1 {
+				break
+			}
 			target = calls[0]
 		}
 		if !seen[target] {
